@@ -205,7 +205,7 @@ def mutate(r, deep_ok):
         # the same path twice (adjacent or not), a path that is a proper prefix of another (file and directory of one name,
         # in both orders), siblings, long shared prefixes, one component, very many files, long and non-ASCII names
         comps = [b"a", b"b", b"c", b"A", "\u00e9".encode(), b"a b", b"x" * 255, b"...", b"-", b"~", b"a.b", b"0"]
-        shape = r.randrange(11)
+        shape = r.randrange(9)
         if shape == 0:
             q = [r.choice(comps) for _ in range(r.choice([1, 2, 3]))]
             plist = [q, q] if r.random() < .5 else [q, [b"other"], q]
@@ -227,17 +227,9 @@ def mutate(r, deep_ok):
         elif shape == 7:
             q = [r.choice(comps) for _ in range(r.choice([2, 3]))]
             plist = [q, q[:1], q, q[:1] + [b"z"], q[:-1]]
-        elif shape == 8:
+        else:
             q = [b"p%d" % i for i in range(r.choice([30, 200, 900]))]
             plist = [q, q[: len(q) // 2], q + [b"leaf"], q]
-        else:
-            # paths whose lengths (in bytes, characters and columns) differ by more than any 16-bit or 8-bit quantity: a report
-            # that lines them up computes with the difference (added after seeded change C08-11: a run-time format width
-            # above 65535 panics)
-            long_one = r.choice([[b"x" * 65536], [b"x" * 70000], ["\u6f22".encode() * 40000], [b"abc"] * 20000, [b"y" * 200000],
-                                 [b"d" * 300, b"e" * 70000]])
-            plist = r.choice([[[b"a"], long_one], [long_one, [b"a"], [b"b", b"c"]], [[b"a"], long_one, long_one[:1] + [b"z"]],
-                              [long_one, [b"w" * 255]]])
         files = [dsort([(b"length", r.choice([0, 1, 7])), (b"path", q)]) for q in plist]
         return kind, enc(with_info(t, lambda i: dset(dset(dset(i, b"length", None), b"md5sum", None), b"files", files)))
     if kind == "valid":
@@ -418,6 +410,13 @@ def corpus():
         ("corpus-duplicate-path-apart", multi_paths([[b"a"], [b"b"], [b"a"]])),
         ("corpus-path-prefix-of-path", multi_paths([[b"a"], [b"a", b"b"]])),
         ("corpus-path-extends-path", multi_paths([[b"a", b"b"], [b"a"]])),
+        # paths whose lengths (in bytes, characters and columns) differ by more than any 16-bit quantity: a report that lines them up
+        # computes with the difference (added after seeded change C08-11: a run-time format width above 65535 panics). A few fixed
+        # cases: rendering 70 000-column rows is slow, so they are not part of the generated stream.
+        ("corpus-path-widths-1-and-65536", multi_paths([[b"a"], [b"x" * 65536]])),
+        ("corpus-path-widths-70000-first", multi_paths([[b"x" * 70000], [b"a"], [b"b", b"c"]])),
+        ("corpus-path-widths-17000-components", multi_paths([[b"a"], [b"abc"] * 17000, [b"abc", b"z"]])),
+        ("corpus-path-widths-wide-characters", multi_paths([["\u6f22".encode() * 22000], [b"w" * 255]])),
     ]
 
 
